@@ -20,28 +20,37 @@ theorem positive_true_stays (fuel : Nat) (ρ ρ' : Env) (e : Expr)
     (hl : LinkLe ρ.link ρ'.link) (hpos : e.positive = true)
     (h : evalExpr fuel ρ e = some (.bool true)) :
     evalExpr fuel ρ' e = some (.bool true) ∨ evalExpr fuel ρ' e = none := by
-  sorry
+  have _ := ht  -- not needed: a positive expression contains no `eval()`
+  rcases evalExpr_positive fuel ρ ρ' e hr hp hf hl hpos _ h with hn | ⟨v', hv', hR⟩
+  · exact .inr hn
+  · rcases hR with rfl | ⟨h1, _⟩
+    · exact .inl hv'
+    · cases h1
 
 /-- `HasLink` is monotone in the set of links … -/
 theorem hasLink_mono (rm rm' : RM) (hk : rm.kind = rm'.kind) (hm : rm.maxLevel = rm'.maxLevel)
     (hsub : ∀ l ∈ rm.links, l ∈ rm'.links) (u r : String) (ds : List String)
     (h : rm.hasLink u r ds = true) : rm'.hasLink u r ds = true := by
-  sorry
+  exact hasLink_mono' rm rm' hk hm hsub u r ds h
 
 /-- … so `AddLink` only adds answers and `DeleteLink` only removes them -/
 theorem addLink_mono (rm : RM) (a b : String) (dsl : List String) (u r : String) (ds : List String)
     (h : rm.hasLink u r ds = true) : (rm.addLink a b dsl).hasLink u r ds = true := by
-  sorry
+  exact hasLink_mono' rm _ (addLink_kind rm a b dsl).symm (addLink_maxLevel rm a b dsl).symm
+    (fun l hl => (mem_addLink rm a b dsl l).2 (.inl hl)) u r ds h
 
 theorem deleteLink_anti (rm : RM) (a b : String) (dsl : List String) (u r : String) (ds : List String)
     (h : (rm.deleteLink a b dsl).hasLink u r ds = true) : rm.hasLink u r ds = true := by
-  sorry
+  exact hasLink_mono' (rm.deleteLink a b dsl) rm rfl rfl
+    (fun l hl => (List.mem_filter.1 hl).1) u r ds h
 
 /-- `HasLink` depends on the set of links only, not on the order they were added in -/
 theorem hasLink_order_free (rm rm' : RM) (hk : rm.kind = rm'.kind) (hm : rm.maxLevel = rm'.maxLevel)
     (hmem : ∀ l, l ∈ rm.links ↔ l ∈ rm'.links) (u r : String) (ds : List String) :
     rm.hasLink u r ds = rm'.hasLink u r ds := by
-  sorry
+  rw [Bool.eq_iff_iff]
+  exact ⟨hasLink_mono' rm rm' hk hm (fun l hl => (hmem l).1 hl) u r ds,
+    hasLink_mono' rm' rm hk.symm hm.symm (fun l hl => (hmem l).2 hl) u r ds⟩
 
 /-- **adding role links never revokes** (allow-override, matcher without negation of a role
     test): an allowed request is not denied afterwards -/
@@ -53,7 +62,13 @@ theorem add_link_monotone (md : ModelDef) (policy : String → List Rule)
     (hl : LinkLe links links')
     (h : (enforce md policy links fn evalTab ctx none rvals).map (·.1) = some true) :
     (enforce md policy links' fn evalTab ctx none rvals).map (·.1) ≠ some false := by
-  sorry
+  obtain ⟨m0, tokens, hm0, hr0, hp0⟩ := enforce_some_lookups md policy links fn evalTab ctx rvals true h
+  rw [hm] at hm0
+  cases hm0
+  rw [enforce_map_fst md policy links fn evalTab ctx rvals m tokens _ hm hr0 hp0 hk] at h
+  rw [enforce_map_fst md policy links' fn evalTab ctx rvals m tokens _ hm hr0 hp0 hk]
+  exact enfDec_link_mono m tokens (policy ctx.pType) ⟨rvals, [], fn, links, evalTab⟩
+    ⟨rvals, [], fn, links', evalTab⟩ rfl rfl hl hpos h
 
 /-- **removing role links never grants** -/
 theorem remove_link_never_grants (md : ModelDef) (policy : String → List Rule)
@@ -64,7 +79,8 @@ theorem remove_link_never_grants (md : ModelDef) (policy : String → List Rule)
     (hl : LinkLe links' links)
     (h : (enforce md policy links fn evalTab ctx none rvals).map (·.1) = some false) :
     (enforce md policy links' fn evalTab ctx none rvals).map (·.1) ≠ some true := by
-  sorry
+  intro h'
+  exact add_link_monotone md policy links' links fn evalTab ctx rvals m hk hm hpos hl h' h
 
 /-- **adding rules never revokes** (allow-override, any matcher, the rules added anywhere in the
     list).  `hD24`: finding D24 — on an empty policy whose matcher mentions the policy `enforce()`
@@ -78,7 +94,12 @@ theorem add_rule_monotone (md : ModelDef) (policy policy' : String → List Rule
     (hD24 : policy ctx.pType ≠ [] ∨ m.mentionsP = false)
     (h : (enforce md policy links fn evalTab ctx none rvals).map (·.1) = some true) :
     (enforce md policy' links fn evalTab ctx none rvals).map (·.1) ≠ some false := by
-  sorry
+  obtain ⟨m0, tokens, hm0, hr0, hp0⟩ := enforce_some_lookups md policy links fn evalTab ctx rvals true h
+  rw [hm] at hm0
+  cases hm0
+  rw [enforce_map_fst md policy links fn evalTab ctx rvals m tokens _ hm hr0 hp0 hk] at h
+  rw [enforce_map_fst md policy' links fn evalTab ctx rvals m tokens _ hm hr0 hp0 hk]
+  exact enfDec_rule_mono m tokens _ _ _ hsub hD24 h
 
 /-- **removing rules never grants** (the same statement read backwards) -/
 theorem remove_rule_never_grants (md : ModelDef) (policy policy' : String → List Rule)
@@ -90,7 +111,8 @@ theorem remove_rule_never_grants (md : ModelDef) (policy policy' : String → Li
     (hD24 : policy' ctx.pType ≠ [] ∨ m.mentionsP = false)
     (h : (enforce md policy links fn evalTab ctx none rvals).map (·.1) = some false) :
     (enforce md policy' links fn evalTab ctx none rvals).map (·.1) ≠ some true := by
-  sorry
+  intro h'
+  exact add_rule_monotone md policy' policy links fn evalTab ctx rvals m hk hm hsub hD24 h' h
 
 /-- **deny-override: adding rules (deny rules in particular) never grants** -/
 theorem deny_override_add_never_grants (md : ModelDef) (policy policy' : String → List Rule)
@@ -100,7 +122,10 @@ theorem deny_override_add_never_grants (md : ModelDef) (policy policy' : String 
     (hsub : (policy ctx.pType).Sublist (policy' ctx.pType))
     (h : (enforce md policy links fn evalTab ctx none rvals).map (·.1) = some false) :
     (enforce md policy' links fn evalTab ctx none rvals).map (·.1) ≠ some true := by
-  sorry
+  obtain ⟨m, tokens, hm, hr0, hp0⟩ := enforce_some_lookups md policy links fn evalTab ctx rvals false h
+  rw [enforce_map_fst md policy links fn evalTab ctx rvals m tokens _ hm hr0 hp0 hk] at h
+  rw [enforce_map_fst md policy' links fn evalTab ctx rvals m tokens _ hm hr0 hp0 hk]
+  exact enfDec_deny_mono m tokens _ _ _ hsub h
 
 /-- **order-insensitivity**: for the three non-priority effects, permuting the rules (and
     rebuilding the role managers from the same links in any order: `hasLink_order_free`) leaves
@@ -116,24 +141,44 @@ theorem perm_invariant (md : ModelDef) (policy policy' : String → List Rule)
     (h : (enforce md policy links fn evalTab ctx none rvals).map (·.1) = some d)
     (h' : (enforce md policy' links' fn evalTab ctx none rvals).map (·.1) = some d') :
     d = d' := by
-  sorry
+  have hll : links = links' := funext fun gt => funext fun args => hl gt args
+  subst hll
+  obtain ⟨m, tokens, hm, hr0, hp0⟩ := enforce_some_lookups md policy links fn evalTab ctx rvals d h
+  rw [enforce_map_fst md policy links fn evalTab ctx rvals m tokens _ hm hr0 hp0 hk] at h
+  rw [enforce_map_fst md policy' links fn evalTab ctx rvals m tokens _ hm hr0 hp0 hk] at h'
+  exact enfDec_perm k hnp m tokens _ _ _ hperm d d' h h'
 
 /-- adding a rule that is already listed changes nothing … -/
 theorem dup_add_noop (l : List Rule) (r : Rule) (h : r ∈ l) :
     SpecStore.apply l (.add r) = (l, false) := by
-  sorry
+  simp [SpecStore.apply, h]
 
 /-- … and adding a fresh rule and removing it again restores the list exactly (the refinement
     theorem C06.refine_step carries both to the store with its index) -/
 theorem add_remove_fresh (l : List Rule) (r : Rule) (h : r ∉ l) :
     (SpecStore.apply (SpecStore.apply l (.add r)).1 (.remove r)).1 = l := by
-  sorry
+  simp only [SpecStore.apply, if_neg h, List.mem_append, List.mem_singleton, or_true, if_true]
+  rw [List.erase_append_right _ h]
+  simp
 
 /-- the same for a role link -/
 theorem addLink_deleteLink_fresh (rm : RM) (a b : String) (ds : List String)
     (h : (a, b, rm.dom ds) ∉ rm.links) :
     ((rm.addLink a b ds).deleteLink a b ds).links = rm.links := by
-  sorry
+  have hc : rm.links.contains (a, b, rm.dom ds) = false := by simpa using h
+  have hadd : rm.addLink a b ds = { rm with links := rm.links ++ [(a, b, rm.dom ds)] } := by
+    unfold RM.addLink
+    simp only [hc, Bool.false_eq_true, if_false]
+  rw [hadd]
+  simp only [RM.deleteLink, RM.dom, List.filter_append]
+  have : ∀ x ∈ rm.links, (x != (a, b, rm.dom ds)) = true := by
+    intro x hx
+    simp only [bne_iff_ne, ne_eq]
+    intro e
+    exact h (e ▸ hx)
+  simp only [RM.dom] at this
+  rw [List.filter_eq_self.2 this]
+  simp
 
 /-! ### non-vacuity -/
 
